@@ -18,12 +18,13 @@
              diff by SameAs / EqualTo, delete-then-add on a clone, same-source
              constraint per node, swap only on success.
 
-    Not in this model (they are in the faithful tree of C06/Tree.v, against which
-    the implementation is compared on every run): node compression, wildcard key
-    names.  The two places where those are observable through the repository
-    (finding C06-F3: delete fails at a node boundary in front of ':' '*' or an
-    escape; finding C06-F5: key names of a deleted route survive on a node that is
-    kept) are excluded from the theorems by guards on the history. *)
+    Not in this model (it is in the faithful tree of C06/Tree.v, against which the
+    implementation is compared on every run): node compression; and the wildcard
+    key names of a node are taken to be those of its values.  The two places where
+    that differs from the code without fixes/C06-F3.diff / C06-F5.diff (finding
+    C06-F3: delete fails at a node boundary in front of ':' '*' or an escape;
+    finding C06-F5: key names of a deleted route survive on a node that is kept)
+    are excluded from the theorems by guards on the history. *)
 From HV Require Import Base.Prelude C06.Pat.
 
 (** ** Rules *)
@@ -87,6 +88,14 @@ Fixpoint get (d : db) (p : pat) : option node :=
   | [] => None
   | (q, n) :: r => if pat_eqb p q then Some n else get r p
   end.
+
+Definition vals_at (d : db) (p : pat) : list route :=
+  match get d p with Some n => vals n | None => [] end.
+
+(** tree.go addNode at the end of the path: the wildcard names of the new
+    expression must fit those the node has (those of its values) *)
+Definition keys_fit (old : list route) (v : route) : bool :=
+  forallb (fun x => keys_compat (rt_path x) (rt_path v)) old.
 
 (** repository_impl.go newRepository, WithValuesConstraints: only rules of the
     same rule set may share a node *)
@@ -343,7 +352,10 @@ Arguments index {I}.
 Definition m_add1 (d : db) (v : route) : db + err :=
   match pat_of (rt_path v) with
   | None => inr EInvalidPath
-  | Some p => match add d p v (rt_bt v) with Some d' => inl d' | None => inr EConstraint end
+  | Some p =>
+    if keys_fit (vals_at d p) v then
+      match add d p v (rt_bt v) with Some d' => inl d' | None => inr EConstraint end
+    else inr EInvalidPath
   end.
 
 (** which values a Delete for route [v] of rule [r] removes: every route of a rule
